@@ -16,6 +16,7 @@ All statements are for *every* byte string / every write chunking — no bound o
   so for ANY incremental hash (uninterpreted `upd`) streaming = one-shot.
 -/
 import Pithos.Lemmas.Checksum
+import Pithos.Gen.ChecksumFacts
 
 namespace Pithos.C35
 open Pithos.Checksum
@@ -131,6 +132,31 @@ theorem streaming_eq_oneshot {σ : Type} (upd : σ → UInt8 → σ) (s0 : σ) (
 
 /-- The real block size is positive, so the three theorems above apply to it. -/
 theorem hashBlockSize_pos : 0 < hashBlockSize := by decide
+
+/-! ## T1: facts regenerated from checksumutils.go on every run (`Pithos.Gen.ChecksumFacts`) -/
+
+/-- **combine_scratch_is_call_local** (re-entrancy by construction). `combine_correct` is about a
+pure function; the implementation is one only if nothing mutable outlives a call. In the current
+source, nothing reachable from `CombineCrc32/32c/64Nvme` touches a package-level variable (other
+than once-initialised function values, whose initialisers are followed), no reachable function
+literal captures a slice / array / map / pointer / value of unrecognised type, and none assigns to
+a captured variable: the operator matrices are allocated inside each call. A change that shares
+scratch state between callers changes the generated lists and breaks this obligation. -/
+theorem combine_scratch_is_call_local :
+    Gen.ChecksumFacts.combineSharedVars = [] ∧ Gen.ChecksumFacts.combineCapturedNonScalars = [] ∧
+    Gen.ChecksumFacts.combineCapturedWritten = [] := by decide
+
+/-- The literals the source hands to `createCombineFunction` are the ones the model (and hence
+`combineCrc32_correct` …) is about, and the block size is the model's. -/
+theorem extracted_constants_are_the_models :
+    Gen.ChecksumFacts.combineEntries =
+      [("CombineCrc32", 0x104C11DB7, 32, 0xFFFFFFFF), ("CombineCrc32c", 0x1EDC6F41, 32, 0xFFFFFFFF),
+       ("CombineCrc64Nvme", 0xAD93D23594C93659, 64, 0xFFFFFFFFFFFFFFFF)] ∧
+    (∀ a b n, combineCrc32 a b n = createCombine 0x104C11DB7 32 0xFFFFFFFF a b n) ∧
+    (∀ a b n, combineCrc32c a b n = createCombine 0x1EDC6F41 32 0xFFFFFFFF a b n) ∧
+    (∀ a b n, combineCrc64Nvme a b n = createCombine 0xAD93D23594C93659 64 0xFFFFFFFFFFFFFFFF a b n) ∧
+    Gen.ChecksumFacts.hashBlockSize = hashBlockSize := by
+  refine ⟨by decide, fun _ _ _ => rfl, fun _ _ _ => rfl, fun _ _ _ => rfl, by decide⟩
 
 /-! ## non-vacuity / anchoring examples -/
 
